@@ -859,7 +859,7 @@ def _register_vector_gradient_rules() -> None:
             if left_index is not None and right_index is not None:
                 # wrt appears in both: x · x case or overlapping vectors
                 # ∂(x·x)/∂x_i = 2*x_i
-                if left is right or left.name == right.name:
+                if left is right:
                     return _simplify_mul(Constant(2.0), wrt)
                 else:
                     # Different vectors with same variable name? Sum contributions
